@@ -35,10 +35,10 @@ CONSTANTS
 
 Empty == <<>>
 Bad == <<"!">>
-Min(a, b) == IF a < b THEN a ELSE b
+Smaller(a, b) == IF a < b THEN a ELSE b
 Preparable(pw) == pw # Bad
 KeptSegments(R) == IF R <= 4 THEN 1 ELSE 2
-Prep(R, pw) == SubSeq(pw, 1, Min(Len(pw), KeptSegments(R)))
+Prep(R, pw) == SubSeq(pw, 1, Smaller(Len(pw), KeptSegments(R)))
 
 NoKey == "nokey"
 FileKey == "filekey"
@@ -55,6 +55,14 @@ ImplScheme(v) == IF v >= 20 THEN [V |-> 5, cipher |-> "AES", bits |-> 256]
 ImplRevision(V, perms) == IF V < 2 /\ CanR2(perms) THEN 2
                           ELSE IF V <= 3 THEN 3
                           ELSE IF V = 4 THEN 4 ELSE 6
+
+\* Observation, not demanded by C09 (left to C10): Table 21 wants R = 3 as
+\* soon as one of the revision 3 permission bits (9, 11, 12) is 0;
+\* createStdSecHandler picks R = 2 whenever the *meaning* of the request is
+\* representable at revision 2 and still clears those bits in /P (46 of the
+\* 54 permission sets with CanR2).
+StrictTable21R(V, P) == IF V < 2 /\ {9, 11, 12} \subseteq P THEN 2
+                        ELSE IF V <= 3 THEN 3 ELSE IF V = 4 THEN 4 ELSE 6
 
 UseEncryption(rq) == rq.user # Empty \/ rq.owner # Empty
 \* NewWriter / createStdSecHandler return an error instead of a Writer
